@@ -45,6 +45,7 @@ Json resultJson( const Result& r)
    j[ "nontrivial"] = r.nontrivial;
    j[ "sim_time"] = r.sim_time;
    j[ "poisoned"] = r.poisoned;
+   if (!r.extra.isNull()) j[ "extra"] = r.extra;
    return j;
 }
 
@@ -90,6 +91,16 @@ void out( const std::string& line)
    }
 }
 
+// what abandonRun() needs to know about the command in progress
+struct InFlight
+{
+   bool                batch = false;
+   uint64_t            index = 0, seed = 0, stride = 1, runs = 0;
+   const Json*         plan = nullptr;
+   volatile uint64_t*  marker = nullptr;
+   Stats*              stats = nullptr;
+}  g_inflight;
+
 int cmdGen( int argc, char* argv[])
 {
    if (argc < 4) return 2;
@@ -107,6 +118,9 @@ int cmdRun( int argc, char* argv[])
    const Json&  p = plan.has( "plan") ? plan.get( "plan") : plan;
    Stats        st;
    std::string  trace;
+   g_inflight.batch = false;
+   g_inflight.plan = &p;
+   g_inflight.stats = &st;
    Result       r = harness().run( p, st, want_trace ? &trace : nullptr);
    if (want_trace)
       std::cerr << trace << std::flush;
@@ -172,6 +186,14 @@ int cmdBatch( int argc, char* argv[])
       const uint64_t  seed = runSeed( base, idx);
       if (marker) { marker[ 0] = idx; marker[ 1] = seed; }
       Json    plan = harness().gen( seed, tier);
+      g_inflight.batch = true;
+      g_inflight.index = idx;
+      g_inflight.seed = seed;
+      g_inflight.stride = stride;
+      g_inflight.runs = runs;
+      g_inflight.plan = &plan;
+      g_inflight.marker = marker;
+      g_inflight.stats = &st;
       Result  r = harness().run( plan, st, nullptr);
       ++runs;
       ++outcomes[ r.outcome];
@@ -285,6 +307,41 @@ int cmdMerge( int argc, char* argv[])
 }
 
 } // namespace
+
+void abandonRun( Result r)
+{
+   r.poisoned = true;
+   if (g_inflight.batch)
+   {
+      Json  j = Json::object();
+      j[ "index"] = g_inflight.index;
+      j[ "seed"] = hex( g_inflight.seed);
+      j[ "result"] = resultJson( r);
+      j[ "rerun_same"] = Json();
+      if (g_inflight.plan) j[ "plan"] = *g_inflight.plan;
+      out( "R " + j.dump());
+      if (g_inflight.marker)
+      {
+         g_inflight.marker[ 2] = g_inflight.runs + 1;
+         g_inflight.marker[ 3] = g_inflight.index + g_inflight.stride;
+         g_inflight.marker[ 0] = ~0ULL;
+      }
+      Json  s = Json::object();
+      s[ "runs"] = g_inflight.runs + 1;
+      s[ "abandoned"] = true;
+      s[ "nontrivial"] = 0;
+      if (g_inflight.stats)
+      {
+         s[ "faults"] = vecJson( g_inflight.stats->faults, harness().faultKinds());
+         s[ "probes"] = vecJson( g_inflight.stats->probes, harness().probeNames());
+      }
+      out( "S " + s.dump());
+   } else
+   {
+      out( "RESULT " + resultJson( r).dump());
+   }
+   _exit( 78);
+}
 
 int harnessMain( int argc, char* argv[])
 {
